@@ -198,6 +198,98 @@ func (m mapImporter) Import(path string) (*types.Package, error) {
 
 // normalize inlines the calls of non-inventory functions. pkgs are the loaded module packages
 // (typed syntax); the returned overlay extends the given one.
+// constantLeft: comparisons written with the constant on the left (`nil == x`, `0 < n`, `"LEFT" == kind`) are turned
+// round (`x == nil`, `n > 0`, `kind == "LEFT"`): the rules read comparisons in the orientation the tree is written in,
+// constant on the right. Both operands of such a comparison are evaluated without effects on each other (one is a
+// constant), so the result is the same program. Returns the rewritten files (absolute name -> content) and the count.
+func constantLeft(pkgs []*packages.Package, overlay map[string][]byte) (map[string][]byte, int) {
+	mirror := map[token.Token]string{token.EQL: "==", token.NEQ: "!=", token.LSS: ">", token.LEQ: ">=", token.GTR: "<", token.GEQ: "<="}
+	out := map[string][]byte{}
+	total := 0
+	for _, p := range pkgs {
+		if !(p.PkgPath == modPath || strings.HasPrefix(p.PkgPath, modPath+"/")) || p.TypesInfo == nil {
+			continue
+		}
+		for _, f := range p.Syntax {
+			name := p.Fset.Position(f.Pos()).Filename
+			if strings.HasSuffix(name, "_test.go") {
+				continue
+			}
+			type ed struct {
+				lo, hi int
+				text   string
+			}
+			var eds []ed
+			var src []byte
+			ast.Inspect(f, func(n ast.Node) bool {
+				be, ok := n.(*ast.BinaryExpr)
+				if !ok {
+					return true
+				}
+				op, isCmp := mirror[be.Op]
+				if !isCmp {
+					return true
+				}
+				isConst := func(e ast.Expr) bool {
+					tv, ok := p.TypesInfo.Types[e]
+					return ok && (tv.Value != nil || tv.IsNil())
+				}
+				// a length is a bound like a constant: `len(text) > ti` reads `ti < len(text)`
+				isLen := func(e ast.Expr) bool {
+					c, ok := e.(*ast.CallExpr)
+					if !ok {
+						return false
+					}
+					id, ok := c.Fun.(*ast.Ident)
+					if !ok || (id.Name != "len" && id.Name != "cap") {
+						return false
+					}
+					_, isBuiltin := p.TypesInfo.Uses[id].(*types.Builtin)
+					return isBuiltin
+				}
+				if !(isConst(be.X) && !isConst(be.Y)) && !(isLen(be.X) && !isLen(be.Y) && !isConst(be.Y)) {
+					return true
+				}
+				if src == nil {
+					if b, ok := overlay[name]; ok {
+						src = b
+					} else if b, err := os.ReadFile(name); err == nil {
+						src = b
+					} else {
+						return false
+					}
+				}
+				o := func(pos token.Pos) int { return p.Fset.Position(pos).Offset }
+				lo, hi := o(be.Pos()), o(be.End())
+				if hi > len(src) {
+					return false
+				}
+				x, y := string(src[o(be.X.Pos()):o(be.X.End())]), string(src[o(be.Y.Pos()):o(be.Y.End())])
+				eds = append(eds, ed{lo, hi, y + " " + op + " " + x})
+				return false // nested comparisons inside are left as they are
+			})
+			if len(eds) == 0 {
+				continue
+			}
+			sort.Slice(eds, func(i, j int) bool { return eds[i].lo < eds[j].lo })
+			var b []byte
+			at := 0
+			for _, e := range eds {
+				if e.lo < at {
+					continue
+				}
+				b = append(b, src[at:e.lo]...)
+				b = append(b, e.text...)
+				at = e.hi
+				total++
+			}
+			b = append(b, src[at:]...)
+			out[name] = b
+		}
+	}
+	return out, total
+}
+
 func normalize(repo string, pkgs []*packages.Package, overlay map[string][]byte, inventory map[string]bool) *normResult {
 	res := &normResult{Overlay: map[string][]byte{}}
 	for k, v := range overlay {
